@@ -1,4 +1,9 @@
 import SqlObjVerif.Lemmas.Query
+import SqlObjVerif.Lemmas.QueryXRep
+import SqlObjVerif.Lemmas.QueryXAgg
+import SqlObjVerif.Lemmas.QueryXBool
+import SqlObjVerif.Lemmas.QueryXRepr
+import SqlObjVerif.Lemmas.QueryXSelect
 /-!
 # C11 — selects, orderings, counts and aggregates equal the same query over a plain copy of the rows
 
@@ -379,5 +384,254 @@ theorem C11_distinct_aggregate_is_over_values :
       ∧ sumL (out.filterMap (·.get (.col 0))) = 3 :=
   ⟨exSch, exDb, Sel.new exSch none none false true, exDb.rows, by unfold KeyIds; decide, rfl, by decide, by decide, by decide⟩
 
+
+/-! ## The translated source (`vlib/extractors/pyquery.py` → `Extracted/PyQuery.lean`, semantics `Model/PyQuery.lean`)
+
+The theorems below are about the PyQuery programs TRANSLATED from /repo on this run, executed by the reference
+interpreter on the images of the hand model's data (`Model/QueryX.lean`, whose header lists every interface
+assumption).  `sch` is any schema, `P` the opaque library / database parameters, `fnRec` the module-level functions that
+are not constructors, `cm` the method-call resolver, `cv` the call of a local class value. -/
+
+namespace X
+open SqlObjVerif.PyQ SqlObjVerif.QueryX
+
+variable (sr : PyQ.Val → Str) (sch : Schema) (P : Params) (fnRec : String → List PyQ.Val → List (Str × PyQ.Val) → R PyQ.Val)
+  (cm : PyQ.Val → String → List PyQ.Val → List (Str × PyQ.Val) → R PyQ.Val) (cv : PyQ.Val → List PyQ.Val → R PyQ.Val)
+
+/-- `SelectResults._mungeOrderBy` as translated computes `mungeOrderBy` for every order key (strings with or without
+    the `-` prefix, names of `sqlmeta.columns` or raw strings, expressions). -/
+theorem C11_translated_mungeOrderBy_eq_model (c : String) (fs : List (String × PyQ.Val))
+    (hsc : aget "sourceClass" fs = some clsV) (a : OrderArg) :
+    mungeX (qIface sch P fnRec cm cv) (.obj c fs) (OrderArg.toVal sch a) = .ret (OExpr.toVal sch (mungeOrderBy sch a)) :=
+  munge_translated sch P fnRec cm cv c fs hsc a
+
+/-- `list(map(self._mungeOrderBy, orderBy))` of `__init__` computes `mungeSeq` for a list and for a tuple of keys. -/
+theorem C11_translated_mungeSeq_eq_model (hm : MungeIs sch P fnRec cm cv) (c : String) (fs : List (String × PyQ.Val))
+    (hsc : aget "sourceClass" fs = some clsV) (k : SeqKind) (l : List OrderArg) :
+    mapR (fun x => cm (.obj c fs) "_mungeOrderBy" [x] []) (l.map (OrderArg.toVal sch))
+      = .ok ((mungeSeq sch k l).map (OExpr.toVal sch)) := by
+  rw [mapR_munge sch P fnRec cm cv hm c fs hsc l, mungeSeq_eq]
+  simp
+
+/-- `SelectResults.__init__` as translated (no window keywords: C10; no `clauseTables`): the object it builds, for every
+    clause, every `ops` dict and every order specification found in it (or `sqlmeta.defaultOrder`). -/
+theorem C11_translated_init_eq_model (hm : MungeIs sch P fnRec cm cv) (cl : Option Expr) (ct : PyQ.Val)
+    (hct : truthy ct = false) (d : List (Str × PyQ.Val)) (o : OrderBy) (conn dbn : PyQ.Val)
+    (ho : aget kOrderBy (opsDefault sch d) = some (OrderBy.toVal sch o))
+    (hl : truthy ((aget kLimit (initOps sch d o)).getD .none) = false)
+    (hgc : cm (.obj "SelectResults" [("sourceClass", clsV), ("clause", clauseV sr sch (cl.getD .tt)),
+      ("ops", .dict (initOps sch d o))]) "_getConnection" [] [] = .ok conn)
+    (hdb : attrOf (qIface sch P fnRec cm cv) conn "dbName" = .ok dbn) :
+    initX (qIface sch P fnRec cm cv) clsV (optClauseV sr sch cl) ct d =
+      (.ret .none, some (srObj clsV (clauseV sr sch (cl.getD .tt)) (.dict (initOps sch d o)) ct
+        (.list (P.listOf (.obj "set" (P.tablesUsed (clauseV sr sch (cl.getD .tt)) dbn)) ++ [.str sch.table]))))
+    ∧ Rep sr sch (clauseV sr sch (cl.getD .tt)) (initOps sch d o)
+        { clause := cl.getD .tt, order := mungeAll sch o, reversed := truthyOpt d kReversed,
+          distinct := truthyOpt d kDistinct } :=
+  ⟨init_translated sr sch P fnRec cm cv hm cl ct hct d o conn dbn ho hl hgc hdb, initOps_rep sr sch cl d o⟩
+
+/-- `_getConnection` as translated. -/
+theorem C11_translated_getConnection (c : String) (fs : List (String × PyQ.Val)) (d : List (Str × PyQ.Val))
+    (hops : aget "ops" fs = some (.dict d)) (hsc : aget "sourceClass" fs = some clsV) :
+    getConnectionX (qIface sch P fnRec cm cv) (.obj c fs) =
+      .ret (if truthy ((aget kConnection d).getD .none) = true then (aget kConnection d).getD .none else P.conn) :=
+  getConnection_translated sch P fnRec cm cv c fs d hops hsc
+
+/-- `clone / orderBy / reversed / distinct / newClause / filter` as translated: each is the constructor call
+    `self.__class__(sourceClass, clause, clauseTables, **ops')` (through `clone`) with exactly the `ops'` / clause of
+    `Sel.orderBy / Sel.rev / Sel.dist / Sel.filter`: `orderBy=o`, `reversed=not reversed`, `distinct=True`,
+    `AND(clause, c)` (`None`: the select itself). -/
+theorem C11_translated_clone_eq_model (I : Iface) (sc cl ct ts : PyQ.Val) (d newOps : List (Str × PyQ.Val)) :
+    cloneX I (srObj sc cl (.dict d) ct ts) newOps =
+      ofR (I.callMethod (srObj sc cl (.dict d) ct ts) "__class__" [sc, cl, ct] (aupdate d newOps)) :=
+  clone_translated I sc cl ct ts d newOps
+
+theorem C11_translated_orderBy_eq_model (I : Iface) (o : PyQ.Val) (c : String) (fs : List (String × PyQ.Val)) :
+    orderByX I (.obj c fs) o = ofR (I.callMethod (.obj c fs) "clone" [] [(kOrderBy, o)]) :=
+  orderBy_translated I _ o c fs rfl
+
+theorem C11_translated_reversed_eq_model (I : Iface) (sc cl ct ts : PyQ.Val) (d : List (Str × PyQ.Val)) :
+    reversedX I (srObj sc cl (.dict d) ct ts) =
+      ofR (I.callMethod (srObj sc cl (.dict d) ct ts) "clone" []
+        [(kReversed, .bool (!truthy ((aget kReversed d).getD (.bool false))))]) :=
+  reversed_translated I sc cl ct ts d
+
+theorem C11_translated_distinct_eq_model (I : Iface) (c : String) (fs : List (String × PyQ.Val)) :
+    distinctX I (.obj c fs) = ofR (I.callMethod (.obj c fs) "clone" [] [(kDistinct, .bool true)]) :=
+  distinct_translated I _ c fs rfl
+
+theorem C11_translated_newClause_eq_model (I : Iface) (sc cl ct ts c' : PyQ.Val) (d : List (Str × PyQ.Val)) :
+    newClauseX I (srObj sc cl (.dict d) ct ts) c' =
+      ofR (I.callMethod (srObj sc cl (.dict d) ct ts) "__class__" [sc, c', ct] d) :=
+  newClause_translated I sc cl ct ts c' d
+
+theorem C11_translated_filter_eq_model (sc cl ct ts c' : PyQ.Val) (d : List (Str × PyQ.Val)) (hcl : isStrV cl = false) :
+    filterX (qIface sch P fnRec cm cv) (srObj sc cl (.dict d) ct ts) c' =
+      if isNoneV c' = true then .ret (srObj sc cl (.dict d) ct ts)
+      else ofR ((fnRec "AND" [cl, c'] []).bind fun a => cm (srObj sc cl (.dict d) ct ts) "newClause" [a] []) :=
+  filter_translated sch P fnRec cm cv sc cl ct ts c' d hcl
+
+/-- `AND(*ops)` / `OR(*ops)` as translated compute `nary` for EVERY operand list (the recursive call resolved by the
+    translated function itself, `n` levels deep with `n + 1 ≥` the number of operands). -/
+theorem C11_translated_AND_eq_model (l : List Expr) (n : Nat) (h : l.length ≤ n + 1) :
+    andX (qIface sch P (naryFn sch P cm cv n) cm cv) (l.map (clauseV sr sch)) = .ret (optV sch sr (nary .and l)) :=
+  and_translated sch P cm cv sr l n h
+
+theorem C11_translated_OR_eq_model (l : List Expr) (n : Nat) (h : l.length ≤ n + 1) :
+    orX (qIface sch P (naryFn sch P cm cv n) cm cv) (l.map (clauseV sr sch)) = .ret (optV sch sr (nary .or l)) :=
+  or_translated sch P cm cv sr l n h
+
+/-- `getOne` as translated computes the hand model's `getOne` on the list `list(self)` gives, for every list. -/
+theorem C11_translated_getOne_eq_model (I : Iface) (dflt : PyQ.Val) (c : String) (fs : List (String × PyQ.Val))
+    (l : List PyQ.Val) (hl : I.fn "list" [.obj c fs] [] = .ok (.list l)) :
+    getOneX I (.obj c fs) dflt = oneOut dflt (getOne (!isGlobV "NoDefault" dflt) l) :=
+  getOne_translated I _ dflt c fs rfl l hl
+
+/-- `__iter__` / `lazyIter` as translated: `iter(list(conn.iterSelect(self)))`. -/
+theorem C11_translated_iter_eq_model (I : Iface) (c : String) (fs : List (String × PyQ.Val)) :
+    iterX I (.obj c fs) = ofR ((I.callMethod (.obj c fs) "lazyIter" [] []).bind fun it =>
+      (callFn I "list" [it] []).bind fun l => callFn I "iter" [l] []) :=
+  iter_translated I _ c fs rfl
+
+theorem C11_translated_lazyIter_eq_model (I : Iface) (c : String) (fs : List (String × PyQ.Val)) :
+    lazyIterX I (.obj c fs) = ofR ((I.callMethod (.obj c fs) "_getConnection" [] []).bind fun conn =>
+      methodOf I conn "iterSelect" [.obj c fs] []) :=
+  lazyIter_translated I _ c fs rfl
+
+/-- `Iteration.next` as translated is `deliver` with the NULL-id guard: a row whose id is NULL gives `None`, EVERY other
+    row (id 0, negative, a string) is handed to `sourceClass.get`. -/
+theorem C11_translated_next_eq_model (I : Iface) (dbconn : PyQ.Val) (ops : List (Str × PyQ.Val)) (idv : PyQ.Val)
+    (rest : List PyQ.Val) (c n : String) (fs : List (String × PyQ.Val))
+    (hfetch : I.callMethod (.obj c fs) "fetchone" [] [] = .ok (.tuple (idv :: rest)))
+    (hlazy : truthy ((aget ['l', 'a', 'z', 'y', 'C', 'o', 'l', 'u', 'm', 'n', 's'] ops).getD (.int 0)) = false) :
+    iterNextX I (.obj "Iteration" [("cursor", .obj c fs),
+        ("select", .obj "SelectResults" [("sourceClass", .glob n), ("ops", .dict ops)]), ("dbconn", dbconn)]) =
+      if isNoneV idv = true then .ret .none
+      else ofR (I.callMethod (.glob n) "get" [idv]
+        [(['s', 'e', 'l', 'e', 'c', 't', 'R', 'e', 's', 'u', 'l', 't', 's'], .tuple rest), (kConnection, dbconn)]) :=
+  iterNext_translated I _ _ dbconn ops (idv :: rest) c n fs rfl rfl hfetch hlazy
+
+/-- `accumulate(*expressions)` as translated: every expression that is not an SQL expression is wrapped into
+    `SQLConstant`, then `conn.accumulateSelect(self, *wrapped)`. -/
+theorem C11_translated_accumulate_eq_model (c : String) (fs : List (String × PyQ.Val)) (conn : PyQ.Val)
+    (hgc : cm (.obj c fs) "_getConnection" [] [] = .ok conn) (exprs : List PyQ.Val) :
+    accumulateX (qIface sch P fnRec cm cv) (.obj c fs) exprs =
+      ofR (methodOf (qIface sch P fnRec cm cv) conn "accumulateSelect" (.obj c fs :: exprs.map wrapConst) []) :=
+  accumulate_translated sch P fnRec cm cv _ c fs rfl conn hgc exprs
+
+/-- `accumulateMany(*attributes)` as translated: for every list of `(function name, attribute)` pairs the expressions
+    `F([DISTINCT ]attr)` — the word DISTINCT exactly when the select is distinct — handed to `accumulate`. -/
+theorem C11_translated_accumulateMany_eq_model (sc cl ct ts : PyQ.Val) (d : List (Str × PyQ.Val)) (conn : PyQ.Val)
+    (hgc : cm (srObj sc cl (.dict d) ct ts) "_getConnection" [] [] = .ok conn)
+    (hsr : ∀ a, methodOf (qIface sch P fnRec cm cv) conn "sqlrepr" [a] [] = .ok (.str (P.sqlrepr a)))
+    (attrs : List (Str × PyQ.Val)) :
+    accumulateManyX (qIface sch P fnRec cm cv) (srObj sc cl (.dict d) ct ts) (attrs.map pairV) =
+      ofR (cm (srObj sc cl (.dict d) ct ts) "accumulate" (attrs.map fun fa => aggText P (distinctWord d) fa.1 fa.2) []) :=
+  accumulateMany_translated sch P fnRec cm cv sc cl ct ts d conn hgc hsr attrs
+
+theorem C11_translated_accumulateOne_eq_model (I : Iface) (f a : PyQ.Val) (c : String) (fs : List (String × PyQ.Val)) :
+    accumulateOneX I (.obj c fs) f a = ofR (I.callMethod (.obj c fs) "accumulateMany" [.tuple [f, a]] []) :=
+  accumulateOne_translated I _ f a c fs rfl
+
+/-- `sum / min / max / avg` as translated call `accumulateOne` with the SQL function names of the hand model. -/
+theorem C11_translated_sum_min_max_avg_eq_model (I : Iface) (a : PyQ.Val) (c : String) (fs : List (String × PyQ.Val)) :
+    sumX I (.obj c fs) a = ofR (I.callMethod (.obj c fs) "accumulateOne" [.str (AggFn.text (AggMethod.fn .sum)).toList, a] [])
+    ∧ minX I (.obj c fs) a = ofR (I.callMethod (.obj c fs) "accumulateOne" [.str (AggFn.text (AggMethod.fn .min)).toList, a] [])
+    ∧ maxX I (.obj c fs) a = ofR (I.callMethod (.obj c fs) "accumulateOne" [.str (AggFn.text (AggMethod.fn .max)).toList, a] [])
+    ∧ avgX I (.obj c fs) a = ofR (I.callMethod (.obj c fs) "accumulateOne" [.str (AggFn.text (AggMethod.fn .avg)).toList, a] []) :=
+  ⟨sum_translated I _ a c fs rfl, min_translated I _ a c fs rfl, max_translated I _ a c fs rfl, avg_translated I _ a c fs rfl⟩
+
+/-- `count()` as translated: a sliced select is an AssertionError; otherwise `accumulate` of `COUNT(*)`, or of
+    `COUNT(DISTINCT <id>)` exactly when the select is distinct (`countPlan`). -/
+theorem C11_translated_count_eq_model (cl ct ts : PyQ.Val) (d : List (Str × PyQ.Val)) (conn : PyQ.Val) (idText : Str)
+    (hgc : cm (srObj clsV cl (.dict d) ct ts) "_getConnection" [] [] = .ok conn)
+    (hsr : methodOf (qIface sch P fnRec cm cv) conn "sqlrepr" [fieldV idName] [] = .ok (.str idText)) :
+    countX (qIface sch P fnRec cm cv) (srObj clsV cl (.dict d) ct ts) =
+      if truthyOpt d kStart = true ∨ truthyOpt d kEnd = true then .exc .assertionError
+      else ofR (cm (srObj clsV cl (.dict d) ct ts) "accumulate" [countExpr d idText] []) :=
+  count_translated sch P fnRec cm cv cl ct ts d conn idText hgc hsr
+
+/-- `accumulateSelect` as translated: the clone chain `queryForSelect().newItems(exprs).unlimited().orderBy(None)` — the
+    accumulate plan keeps WHERE and DISTINCT, replaces the items, drops the window and the ORDER BY (`accumulatePlan`) —
+    is rendered and run; a single expression gives the single value. -/
+theorem C11_translated_accumulateSelect_eq_model (I : Iface) (c n : String) (fs : List (String × PyQ.Val))
+    (exprs : List PyQ.Val) (q0 q1 q2 q3 : List (Str × PyQ.Val)) (text : PyQ.Val) (row : List PyQ.Val)
+    (h0 : I.callMethod (.obj c fs) "queryForSelect" [] [] = .ok (selObj q0))
+    (h1 : I.callMethod (selObj q0) "newItems" [.tuple exprs] [] = .ok (selObj q1))
+    (h2 : I.callMethod (selObj q1) "unlimited" [] [] = .ok (selObj q2))
+    (h3 : I.callMethod (selObj q2) "orderBy" [.none] [] = .ok (selObj q3))
+    (h4 : I.callMethod (.glob n) "sqlrepr" [selObj q3] [] = .ok text)
+    (h5 : I.callMethod (.glob n) "queryOne" [text] [] = .ok (.tuple row)) :
+    accumulateSelectX I (.glob n) (.obj c fs) exprs = accOut exprs row :=
+  accumulateSelect_translated I _ _ c n fs rfl rfl exprs q0 q1 q2 q3 text row h0 h1 h2 h3 h4 h5
+
+/-- the `Select` methods of the chain as translated: `newItems(x) = clone(items=x)`, `unlimited() =
+    clone(limit=NoDefault, start=0, end=None)`, `orderBy(o) = clone(orderBy=o)`, `clone(**new) = Select(**{**ops, **new})`. -/
+theorem C11_translated_select_chain_eq_model (I : Iface) (d newOps : List (Str × PyQ.Val)) (x : PyQ.Val) :
+    selNewItemsX I (selObj d) x = ofR (I.callMethod (selObj d) "clone" [] [(['i', 't', 'e', 'm', 's'], x)])
+    ∧ selUnlimitedX I (selObj d) = ofR (I.callMethod (selObj d) "clone" []
+        [(kLimit, .glob "NoDefault"), (kStart, .int 0), (kEnd, .none)])
+    ∧ selOrderByX I (selObj d) x = ofR (I.callMethod (selObj d) "clone" [] [(kOrderBy, x)])
+    ∧ selCloneX I (selObj d) newOps = ofR (I.callMethod (selObj d) "__class__" [] (aupdate d newOps)) :=
+  ⟨selNewItems_translated I d x, selUnlimited_translated I d, selOrderBy_translated I d x, selClone_translated I d newOps⟩
+
+/-- `DESC.__sqlrepr__` as translated, one level (`OExpr.key`): DESC of DESC renders the inner expression, any other
+    operand gets the DESC format appended; `_str_or_sqlrepr` passes strings through. -/
+theorem C11_translated_DESC_sqlrepr_eq_model (v db : PyQ.Val)
+    (hstr : ∀ w, fnRec "sqlrepr" [v, db] [] = .ok w → ∃ s, w = .str s) :
+    descSqlreprX (qIface sch P fnRec cm cv) (descV v) db =
+      if hasCls "DESC" v = true then
+        ofR ((attrOf (qIface sch P fnRec cm cv) v "expr").bind fun w => fnRec "sqlrepr" [w, db] [])
+      else ofR (addDesc (fnRec "sqlrepr" [v, db] [])) :=
+  descSqlrepr_step sch P fnRec cm cv v db hstr
+
+theorem C11_translated_str_or_sqlrepr_eq_model (e db : PyQ.Val) :
+    strOrSqlreprX (qIface sch P fnRec cm cv) e db =
+      if isStrV e = true then .ret e else ofR (fnRec "sqlrepr" [e, db] []) :=
+  strOrSqlrepr_translated sch P fnRec cm cv e db
+
+/-- `selectBy(connection=…, **kw)` as translated: the keyword clause of the connection, then the constructor. -/
+theorem C11_translated_selectBy_eq_model (connection : PyQ.Val) (kw : List (Str × PyQ.Val)) :
+    selectByX (qIface sch P fnRec cm cv) clsV connection kw =
+      ofR ((methodOf (qIface sch P fnRec cm cv) (if truthy connection = true then connection else P.conn) "_SO_columnClause"
+        [clsV, .dict kw] []).bind fun c =>
+          cm clsV "SelectResultsClass" [clsV, c] [(kConnection, if truthy connection = true then connection else P.conn)]) :=
+  selectBy_translated sch P fnRec cm cv connection kw
+
+/-- **order_spec_correct about the translated constructor.**  The object the translated `__init__` builds for
+    `cls.select(clause, orderBy=o, reversed=r, distinct=dd)` stores a description (`Rep`) of a select whose reference
+    evaluation returns a permutation of the filtered (distinct) rows sorted by the intended comparator. -/
+theorem C11_translated_order_spec_correct (hm : MungeIs sch P fnRec cm cv) (cl : Option Expr) (ct : PyQ.Val)
+    (hct : truthy ct = false) (d : List (Str × PyQ.Val)) (o : OrderBy) (conn dbn : PyQ.Val)
+    (ho : aget kOrderBy (opsDefault sch d) = some (OrderBy.toVal sch o))
+    (hl : truthy ((aget kLimit (initOps sch d o)).getD .none) = false)
+    (hgc : cm (.obj "SelectResults" [("sourceClass", clsV), ("clause", clauseV sr sch (cl.getD .tt)),
+      ("ops", .dict (initOps sch d o))]) "_getConnection" [] [] = .ok conn)
+    (hdb : attrOf (qIface sch P fnRec cm cv) conn "dbName" = .ok dbn)
+    (db : Db) (keys : List Key) (hne : ∀ k, o ≠ .many k [])
+    (hk : intentKeys sch (cl.getD .tt).usesOth (truthyOpt d kReversed) o.args = some keys) :
+    ∃ obj d' s out, initX (qIface sch P fnRec cm cv) clsV (optClauseV sr sch cl) ct d = (.ret .none, some obj)
+      ∧ attrOf (qIface sch P fnRec cm cv) obj "ops" = .ok (.dict d')
+      ∧ Rep sr sch (clauseV sr sch (cl.getD .tt)) d' s
+      ∧ evalSelect sch db s = some out
+      ∧ out.Perm (distinctIf (truthyOpt d kDistinct) (source db (cl.getD .tt))) ∧ Sorted (leKeys keys) out := by
+  obtain ⟨h1, h2⟩ := C11_translated_init_eq_model sr sch P fnRec cm cv hm cl ct hct d o conn dbn ho hl hgc hdb
+  obtain ⟨out, e1, e2, e3⟩ := evalSelect_spec sch db ⟨cl.getD .tt, o, truthyOpt d kReversed, truthyOpt d kDistinct⟩ keys hne hk
+  exact ⟨_, _, _, out, h1, rfl, h2, e1, e2, e3⟩
+
+/-- **aggregate_plan about the translated `count`.**  The expression the translated `count()` accumulates is the text
+    of the item of the hand model's `countPlan` of the represented select (so `C11_aggregate_plan_count` speaks about
+    it): `COUNT(*)`, and `COUNT(DISTINCT <id>)` exactly for a distinct select. -/
+theorem C11_translated_aggregate_plan (cv' : PyQ.Val) (d : List (Str × PyQ.Val)) (s : Sel) (idText : Str)
+    (hrep : Rep sr sch cv' d s) :
+    countExpr d idText = match (countPlan s).items with
+      | .count .star => .str ['C', 'O', 'U', 'N', 'T', '(', '*', ')']
+      | .count .distinctId => .str (['C', 'O', 'U', 'N', 'T', '(', 'D', 'I', 'S', 'T', 'I', 'N', 'C', 'T', ' '] ++ idText ++ [')'])
+      | _ => .none := by
+  unfold countExpr countPlan accumulatePlan
+  rw [hrep.distinct]
+  cases s.distinct <;> rfl
+
+end X
 
 end SqlObjVerif.Query
